@@ -157,3 +157,5 @@ func vhC17SPNative() *SAMLServiceProvider
 func vGlobalWritesReset()
 func vGlobalWrites() int
 func vConfigSig(sp *SAMLServiceProvider) string
+
+func vDump(label string, ok bool, v interface{})
